@@ -20,3 +20,15 @@ import LyModel.Props.C04Rb
 #print axioms LyModel.Props.C04Rb.rb_inorder_insert
 #print axioms LyModel.Props.C04Rb.rb_insert_isRB
 #print axioms LyModel.Props.C04Rb.rb_reachable
+-- audit (vacuity / weakness review): checkers used by the non-vacuity examples, the repaired corollary of `insert_perm`
+#print axioms LyModel.Props.C04.newOkB_sound
+#print axioms LyModel.Props.C04.opOkB_sound
+#print axioms LyModel.Props.C04.histOkB_sound
+#print axioms LyModel.Props.C04.uniqMatchB_sound
+#print axioms LyModel.Props.C04.ties_of_mem
+#print axioms LyModel.Props.C04.auOps_ok
+#print axioms LyModel.Props.C04.auS1_inv
+#print axioms LyModel.Props.C04.auS0_inv
+#print axioms LyModel.Props.C04.insert_perm_distinct_keys_insufficient_for_userord
+#print axioms LyModel.Props.C04.insert_perm_of_perm
+#print axioms LyModel.Props.C04Rb.keyGt_trans
